@@ -257,7 +257,42 @@ ARCHS = ['conv-relu-pool-lin', 'flat-lin-tanh-lin', 'conv-elu-conv-relu-lin', 'c
          'conv-bn-relu-lin', 'flat-lin-relu-drop-lin']
 
 
+KINK_X = ['AGCATGCA', 'CCGATTAT', 'GGATCCAC']
+KINK_REFS = [['CTCATGCA', 'ACGATGCA'], ['CTGATCAT', 'TCGACTAT'], ['GCATGCAC', 'GACTGCAC']]
+
+
+def ohe_str(seq):
+    t = torch.zeros(4, len(seq))
+    for l, ch in enumerate(seq):
+        t['ACGT'.index(ch), l] = 1
+    return t
+
+
+def build_kink(wseed):
+    """Flatten -> Linear(32, 3) -> ReLU -> Linear(3, 1) with exact dyadic weights.  Hidden unit 0 sits
+    next to its kink for example 0: pre-activation +2^-19 for the sequence, -2^-19 for its first
+    reference (|delta_in| = 2^-18 > 1e-6: the rescale rule must use the secant); hidden unit 2 is 40 for
+    example 1 (T at position 7).  The rule applied to example 0's pair must not depend on example 1
+    being in the same batch."""
+    g = torch.Generator().manual_seed(wseed)
+    nn = torch.nn
+    lin1, lin2 = nn.Linear(32, 3), nn.Linear(3, 1)
+    with torch.no_grad():
+        W = torch.round((torch.rand(3, 4, 8, generator=g) * 2 - 1) * 4) / 8
+        W[0] = 0
+        W[0, 0, 0] = 1.0
+        W[0, 3, 1] = 1.0 - 2.0 ** -18
+        W[2, 3, 7] = 40.0
+        lin1.weight.copy_(W.reshape(3, -1))
+        lin1.bias.copy_(torch.tensor([-(1.0 - 2.0 ** -19), 0.125, -0.25]))
+        lin2.weight.copy_(torch.tensor([[1.0, 0.75, 0.0625]]))
+        lin2.bias.zero_()
+    return nn.Sequential(nn.Flatten(), lin1, nn.ReLU(), lin2)
+
+
 def build_net(arch, L, wseed):
+    if arch == 'directed-kink':
+        return build_kink(wseed)
     g = torch.Generator().manual_seed(wseed)
     nn = torch.nn
     if arch == 'conv-relu-pool-lin':
@@ -288,12 +323,14 @@ def build_net(arch, L, wseed):
     return net
 
 
-N_OUT = {'conv-relu-pool-lin': 2, 'flat-lin-tanh-lin': 2, 'conv-elu-conv-relu-lin': 1, 'conv-relu-lin-scaled': 1,
+N_OUT = {'directed-kink': 1, 'conv-relu-pool-lin': 2, 'flat-lin-tanh-lin': 2, 'conv-elu-conv-relu-lin': 1, 'conv-relu-lin-scaled': 1,
          'conv-bn-relu-lin': 2, 'flat-lin-relu-drop-lin': 2}
 
 
 def real_inputs(inp):
     from tangermeme.utils import random_one_hot
+    if inp['arch'] == 'directed-kink':
+        return torch.stack([ohe_str(q) for q in KINK_X]), None
     dt = torch.float64 if inp.get('dtype') == 'f64' else torch.float32
     X = random_one_hot((inp['N'], 4, inp['L']), random_state=inp['xseed']).type(dt)
     # degenerate examples: a dinucleotide repeat / a homopolymer with one other character at the
@@ -313,6 +350,8 @@ def real_reference_tensor(inp, X):
     """an explicit reference tensor: shuffles, except that every reference of example 0 and the
     first reference of example 1 are the sequences themselves"""
     from tangermeme.ersatz import shuffle
+    if inp['arch'] == 'directed-kink':
+        return torch.stack([torch.stack([ohe_str(q) for q in ex]) for ex in KINK_REFS])
     refs = shuffle(X, n=inp['ns'], random_state=inp['seed']).type(X.dtype)
     refs[0, :] = X[0]
     if inp['N'] > 1:
@@ -333,7 +372,7 @@ def plain_gradient(module, grad_input, grad_output):
     return grad_input
 
 
-OVERRIDE = {'conv-bn-relu-lin': torch.nn.ReLU, 'flat-lin-relu-drop-lin': torch.nn.ReLU,
+OVERRIDE = {'directed-kink': torch.nn.ReLU, 'conv-bn-relu-lin': torch.nn.ReLU, 'flat-lin-relu-drop-lin': torch.nn.ReLU,
             'conv-relu-pool-lin': torch.nn.ReLU, 'flat-lin-tanh-lin': torch.nn.Tanh,
             'conv-elu-conv-relu-lin': torch.nn.ELU, 'conv-relu-lin-scaled': torch.nn.ReLU}
 
@@ -677,6 +716,16 @@ def gen_enc(tier, rng):
                     c['vars'] = selection_family(rng, N, ens, sels[k:k + chunk])
                     c['family'] = 'selection'
                     yield c
+    # many examples: batches of 2-4 distinct examples straddling 7|8 and 31|32 (and every other boundary)
+    for N, ns in ([(9, 3), (12, 2), (33, 3)] if quick else [(9, 3), (10, 3), (11, 2), (12, 2), (12, 3), (33, 3), (34, 2), (35, 3)]):
+        inp = enc_base(rng, N, ns, rng.choice(MODES), rng.choice(SOURCES), rng.random() < 0.6, rng.choice([0, 1]))
+        bs = [b for b in (2, 3, 4, 5, 7, 9, 10, 11) if b % ns != 0]
+        vs = [full(N, N * ns + 1)] + [full(N, b) for b in (bs if N < 20 else rng.sample(bs, 3))]
+        vs += [{'sel': list(range(N - 1, -1, -1)), 'b': rng.choice(bs)}, {'sel': [7, 8], 'b': ns + 1},
+               {'sel': [8, 7, 6], 'b': ns + 2}]
+        inp['vars'] = vs
+        inp['family'] = 'many-examples'
+        yield inp
     # n_shuffles not passed (default 20) with a reference function: every batch size 1..20n+1
     for t in range(2 if quick else 8):
         N = 1 + t % 2
@@ -727,10 +776,33 @@ def gen_real(tier, rng):
         yield inp
 
 
+def gen_directed(tier, rng):
+    """directed real-net families: (a) a hidden unit next to its kink whose pair is evaluated alone,
+    co-batched with a strongly activating example, in every subset / order / batch size and output
+    mode; (b) a real net on 9-10 examples with batches straddling examples 7|8"""
+    for mode in MODES:
+        sels = [[0], [0, 2], [2, 0], [0, 1], [1, 0], [0, 1, 2], [2, 1, 0]]
+        vs = [full(3, 7), full(3, 7)]
+        for sel in sels:
+            for b in range(1, len(sel) * 2 + 2):
+                vs.append({'sel': sel, 'b': b})
+        yield {'kind': 'real', 'arch': 'directed-kink', 'N': 3, 'L': 8, 'ns': 2, 'xseed': 0, 'wseed': rng.randint(0, 10 ** 6),
+               'seed': 0, 'mode': mode, 'ret': mode != 'raw', 'reffn': 'tensor', 'dtype': 'f32', 'degenerate': [],
+               'target': 0, 'vars': vs, 'family': 'directed-kink'}
+    for t in range(1 if tier != 'thorough' else 3):
+        N, ns = 9 + t, 3
+        vs = [full(N, N * ns + 1)] + [full(N, b) for b in (5, 7, 10, 11)] + [{'sel': [7, 8], 'b': 4}]
+        yield {'kind': 'real', 'arch': ARCHS[t], 'N': N, 'L': 10, 'ns': ns, 'xseed': rng.randint(0, 10 ** 6),
+               'wseed': rng.randint(0, 10 ** 6), 'seed': rng.randint(0, 10 ** 6), 'mode': MODES[t % 3], 'ret': True,
+               'reffn': 'dinuc', 'dtype': 'f32', 'degenerate': [], 'target': 0, 'vars': vs, 'family': 'many-examples'}
+
+
 def generate(tier, rng):
     for inp in gen_enc(tier, rng):
         yield inp
     for inp in gen_real(tier, rng):
+        yield inp
+    for inp in gen_directed(tier, rng):
         yield inp
 
 
